@@ -556,7 +556,7 @@ class WFXW(WFNW):
 
 class GAMESS(Fmt):
     name = "gamess"
-    space = [("natom", [3, 1, 34]), ("steps", [1, 2]), ("sections", ["all", "no-hessian", "no-masses", "hessian-only"]), ("approx_hessian", [False, True]), ("coords", ["small", "negative", "touching"]), T(11)]
+    space = [("natom", [3, 1, 34]), ("steps", [1, 2]), ("sections", ["all", "no-hessian", "no-masses", "hessian-only", "coordinates-only"]), ("approx_hessian", [False, True]), ("coords", ["small", "negative", "touching"]), T(11)]
 
     def make(self, c, seed):
         n = c["natom"]
@@ -565,7 +565,7 @@ class GAMESS(Fmt):
         steps = []
         for k in range(c["steps"]):
             last = k == c["steps"] - 1
-            grad = None if c["sections"] == "hessian-only" else np.array([[float(f"{v:.10E}") for v in row] for row in (np.arange(3.0 * n).reshape(n, 3) * 0.0009765625 - 0.0123 * (k + 1))])
+            grad = None if c["sections"] in ("hessian-only", "coordinates-only") else np.array([[float(f"{v:.10E}") for v in row] for row in (np.arange(3.0 * n).reshape(n, 3) * 0.0009765625 - 0.0123 * (k + 1))])
             steps.append((r if last else r + 0.125 * ANG, -40.5 - 0.25 * k, grad))
         hess = sym2(3 * n, seed + 2, 0.25) if c["sections"] in ("all", "no-masses", "hessian-only") else None
         approx = sym2(3 * n, seed + 5, 0.5) if c["approx_hessian"] else None
